@@ -98,7 +98,7 @@ class H3Ops:
                 # get all entities in this ring
                 found = (
                     entity
-                    for cell in ring
+                    for cell in sorted(ring)
                     for entity in cls.get_entities_at_cell(cell, entity_search, entities)
                 )
 
